@@ -339,6 +339,46 @@ class Ctx:
                           "distinct_states": res["distinct"], "accepted": accepted, "wall_s": res["wall_s"]})
         return accepted, msg, res
 
+    def collect_events(self, family, out_name=None):
+        """Concatenates the event files written by the replay workers of this check (util::emit_event)."""
+        out = os.path.join(self.work, out_name or ("events-%s.ndjson" % family))
+        parts = sorted(glob.glob(os.path.join(self.work, "events-%s-*.ndjson" % family)))
+        with open(out, "w") as o:
+            for p in parts:
+                with open(p) as f:
+                    shutil.copyfileobj(f, o)
+                os.remove(p)
+        return out
+
+    def validate_events(self, model, trace, label=None, cfg=None, timeout=3600, count=True):
+        """Validates an event file produced by replay workers against spec/<model>.tla."""
+        label = label or model
+        nlines = sum(1 for _ in open(trace))
+        if nlines == 0:
+            raise ToolError("no events to validate for %s" % label)
+        ok, msg, res = self.trace_check(model, trace, cfg=cfg, label=label, timeout=timeout)
+        if ok:
+            if not any("ACCEPTED" in p for p in res["prints"]):
+                raise ToolError("trace %s: TLC finished without evaluating the acceptance condition" % label)
+            with open(trace) as f:
+                first = f.readline()
+            ev = json.loads(first)
+            self.samples.append({"run": label, "event": {k: v for k, v in ev.items() if k != "text"}})
+            return True
+        m = re.search(r'"REJECTED", (\d+)', msg)
+        at = int(m.group(1)) if m else None
+        ev = None
+        if at:
+            with open(trace) as f:
+                for i, line in enumerate(f, start=1):
+                    if i == at:
+                        ev = json.loads(line)
+                        break
+        self.traces_ok -= 1 if count else 0
+        self.add_failure({"family": "trace", "case": {"model": model, "seed": self.seed, "tier": self.tier, "event_index": at},
+                          "detail": {"kind": "trace-rejected", "what": model, "event": ev, "tlc": msg[:600]}})
+        return False
+
     def record_and_validate(self, family, model, args=(), label=None, cfg=None, count_key=None, timeout=3600):
         """Records real executions with `vh record <family>` and validates the trace with spec/<model>.tla.
         A rejected trace becomes a failure carrying the first unexplained event."""
